@@ -84,6 +84,12 @@ def gen_case(rng, tier):
         if r < 0.55:
             return M([[k, cont(d - 1)] for k in rng.sample(['a', 'b', 'c', '_u'], rng.randrange(1, 4))])
         if r < 0.8:
+            if rng.random() < 0.08:
+                # a long list of plain data (rows of plain lists, scalars of several kinds): every element still is a node of its own
+                def plain_elem():
+                    serial[0] += 1
+                    return rng.choice([S(serial[0]), S(serial[0] + 0.5), S(f'row{serial[0]}', style='dq'), L([S(serial[0]), S(serial[0] + 1)])])
+                return L([plain_elem() for _ in range(rng.choice([15, 16, 17, 24, 40]))])
             return L([cont(d - 1) for _ in range(rng.randrange(1, 4))])
         serial[0] += 1
         return SP('call', func=f'verif_targets.rec{serial[0]}', args=M([['x', leaf()]]))
@@ -176,6 +182,12 @@ def gen_case(rng, tier):
         else:
             from .c16 import put
             put(doc2, loc, node)
+            if len(loc) == 1 and rng.random() < 0.3:
+                # the later document's reference overrides something else written there before - a plain value, or a function node
+                # (for which a plain *string* would be a new target name; a reference is not a name)
+                old = rng.choice([S(f'old{i}', style='dq'), SP('call', func=f'verif_targets.rec{900 + i}', args=M([['x', S(1)]])), SP('bind', func=f'verif_targets.rec{900 + i}', args=L([S(2)])),
+                                  M([['was', S(1)]])])
+                base['items'].insert(rng.randrange(len(base['items']) + 1), [loc[0], old])
     # hostile values: plain strings spelled exactly like paths / reference texts used in this case
     spell = [gen.path_str(r['loc']) for r in refs] + [r['target'] for r in refs]
     leaves = [nd for _, nd in emit.walk(base) if nd is not None and nd.get('t') == 'sc' and isinstance(nd.get('v'), str)]
@@ -416,7 +428,7 @@ def _plain(v):
 def _dangling_terminals(case, plan):
     """terminals that do not exist: evaluate the same texts with every reference replaced by a plain scalar"""
     import re
-    texts = [re.sub(r'!(xref|ref) "[^"]*"', '"REF"', t) for t in case['texts']]
+    texts = [re.sub(r'!(xref|ref) "[^"]*"', '424242', t) for t in case['texts']]          # (a number: a plain string written over a function node would be a new target name)
     o = lib.outcome(lambda: lib.build(texts))
     if o[0] != 'ok':
         return ['<twin build failed>']
